@@ -78,7 +78,25 @@ def tickmath(ctx):
     from demeter.uniswap.liquitidy_math import get_sqrt_ratio_at_tick as real
     from .. import ast2smt, symx
 
-    ex = ast2smt.extract(real)
+    try:
+        ex = ast2smt.extract(real)
+    except ast2smt.ExtractError as e:
+        # The function no longer has the shape the induction is generated from (e.g. the unrolled steps became a table + loop).
+        # No proof can be produced; what CAN be done is the property's own tolerance, monotonicity and boundary values on the
+        # witness ticks the lemmas would have used (every single-bit tick, MIN / MAX / 0, dense-bit ticks). A failure there is a
+        # replayable violation; all passing means "cannot decide" and is reported as a harness error, never as a pass.
+        ctx.outcome("extract-failed")
+        ticks = sorted({t for m in [0] + [1 << k for k in range(20)] for t in _witness_ticks(m, MAX_TICK)} | {MIN_TICK, MAX_TICK, 0, 1, -1, 524287, 524288, -524287, -524288})
+        ok_tol = all(_property_tolerance_ok(real, t) for t in ticks)
+        ok_mono = all(real(a) < real(b) for a, b in zip(ticks, ticks[1:]))
+        ctx.check("WITNESS (extraction failed) closeness to sqrt(1.0001^tick)*2^96 on the lemma witness ticks", ok_tol)
+        ctx.check("WITNESS (extraction failed) strictly increasing over the lemma witness ticks", ok_mono)
+        ctx.check("boundary: tick 0 -> 2^96", real(0) == 1 << 96)
+        ctx.check("boundary: MIN_TICK -> MIN_SQRT_RATIO 4295128739", real(MIN_TICK) == MIN_SQRT)
+        ctx.check("boundary: MAX_TICK -> MAX_SQRT_RATIO", real(MAX_TICK) == MAX_SQRT)
+        if ok_tol and ok_mono and real(0) == 1 << 96 and real(MIN_TICK) == MIN_SQRT and real(MAX_TICK) == MAX_SQRT:
+            raise RuntimeError(f"get_sqrt_ratio_at_tick can no longer be translated ({e}); witness ticks show no violation, the all-ticks claim is NOT decided")
+        return
     mdl = ast2smt.model(ex)
     # --- translation validation of the extractor: extracted model == real function
     probe = [0, 1, -1, MIN_TICK, MAX_TICK, 887271, -887271, 12345, -54321, 200000, -200000, 443636, -443636]
